@@ -97,11 +97,6 @@ class SF(SV):
     def __floordiv__(self, o):
         raise Unsupported("floordiv in the float64 model")
 
-    def __mod__(self, o):
-        raise Unsupported("mod in the float64 model")
-
-    __rmod__ = __mod__
-
     def __neg__(self):
         return SF(z3.fpNeg(self.e))
 
@@ -171,26 +166,106 @@ class SF(SV):
     def sqrt(self):
         return SF(z3.fpSqrt(RM, self.e))
 
-    def _libm(self, name, odd=True):
-        """uninterpreted libm function: finite argument in the domain -> finite result, sign preserved, zero iff zero"""
-        f = z3.Function("fp_" + name, F64, F64)
-        r = f(self.e)
-        eng = Engine.cur
-        if eng is not None and odd:
-            eng.add_axiom(z3.Implies(z3.fpIsZero(self.e), z3.fpIsZero(r)))
-            eng.add_axiom(z3.Implies(z3.And(z3.fpIsPositive(self.e), z3.Not(z3.fpIsZero(self.e)), z3.Not(z3.fpIsNaN(self.e))),
-                                     z3.And(z3.fpGT(r, fpval(0.0)), z3.Not(z3.fpIsNaN(r)))))
-            eng.add_axiom(z3.Implies(z3.And(z3.fpIsNegative(self.e), z3.Not(z3.fpIsZero(self.e)), z3.Not(z3.fpIsNaN(self.e))),
-                                     z3.And(z3.fpLT(r, fpval(0.0)), z3.Not(z3.fpIsNaN(r)))))
-        return SF(r)
+    def _ordinary(self):
+        return z3.And(z3.Not(z3.fpIsNaN(self.e)), z3.Not(z3.fpIsInf(self.e)))
 
     def arcsin(self):
-        return self._libm("arcsin")
+        """uninterpreted libm arcsin; facts assumed of every libm: NaN outside [-1, 1]; inside: finite, |r| <= fl(pi/2), sign
+        preserving, zero only at zero"""
+        f = z3.Function("fp_arcsin", F64, F64)
+        x, r = self.e, f(self.e)
+        eng = Engine.cur
+        if eng is not None:
+            one, zero, half_pi = fpval(1.0), fpval(0.0), fpval(math.pi / 2)
+            inside = z3.And(z3.fpLEQ(z3.fpAbs(x), one))
+            eng.add_axiom(z3.Implies(z3.Not(inside), z3.fpIsNaN(r)))
+            eng.add_axiom(z3.Implies(inside, z3.And(z3.Not(z3.fpIsNaN(r)), z3.fpLEQ(z3.fpAbs(r), half_pi))))
+            eng.add_axiom(z3.Implies(z3.fpIsZero(x), z3.fpIsZero(r)))
+            eng.add_axiom(z3.Implies(z3.And(inside, z3.fpGT(x, zero)), z3.fpGT(r, zero)))
+            eng.add_axiom(z3.Implies(z3.And(inside, z3.fpLT(x, zero)), z3.fpLT(r, zero)))
+        return SF(r)
+
+    def arccos(self):
+        """uninterpreted libm arccos; facts assumed of every libm: NaN outside [-1, 1]; inside: 0 <= r <= fl(pi), r = 0 only
+        at 1, and r >= 2^-27 below 1 (arccos(1 - 2^-53) = 1.49e-8 is the smallest non-zero value)"""
+        f = z3.Function("fp_arccos", F64, F64)
+        x, r = self.e, f(self.e)
+        eng = Engine.cur
+        if eng is not None:
+            one, zero = fpval(1.0), fpval(0.0)
+            inside = z3.fpLEQ(z3.fpAbs(x), one)
+            eng.add_axiom(z3.Implies(z3.Not(inside), z3.fpIsNaN(r)))
+            eng.add_axiom(z3.Implies(inside, z3.And(z3.fpGEQ(r, zero), z3.fpLEQ(r, fpval(math.pi)))))
+            eng.add_axiom(z3.Implies(z3.fpEQ(x, one), z3.fpIsZero(r)))
+            eng.add_axiom(z3.Implies(z3.And(inside, z3.fpLT(x, one)), z3.fpGEQ(r, fpval(2.0**-27))))
+        return SF(r)
+
+    def __mod__(self, o):
+        """numpy's float remainder for a positive constant modulus, modelled on |x| < m only (side condition): fmod is then
+        the identity and a negative value is moved up by one modulus (one rounded addition)"""
+        m = fpval(o)
+        mv = z3.simplify(m)
+        if not z3.is_fp_value(mv) or not fp_to_float(mv) > 0:
+            raise Unsupported("mod by a non-constant or non-positive modulus in the float64 model")
+        eng = Engine.cur
+        if eng is not None:
+            eng.side(z3.fpLT(z3.fpAbs(self.e), m))
+        return SF(z3.If(z3.fpLT(self.e, fpval(0.0)), z3.fpAdd(RM, self.e, m), self.e))
+
+    def __rmod__(self, o):
+        raise Unsupported("rmod in the float64 model")
+
+    def _sincos(self):
+        """uninterpreted libm sin / cos of the same argument; facts assumed of every faithful libm: finite in [-1, 1] for
+        finite arguments, max(|sin|, |cos|) >= 1/2, cos >= 2^-54 on [-fl(pi/2), fl(pi/2)] (cos(fl(pi/2)) = 6.1e-17),
+        |sin x| <= |x|, sin(0) = 0, cos(0) = 1, and |sin x| < 1 exactly for |x| <= T, sin x = +-1 for T < |x| <= fl(pi/2), where
+        T (about pi/2 - 1.05e-8: 1 - d^2/2 rounds to 1 beyond it) is measured on the platform libm by bisection at run time"""
+        fs, fc = z3.Function("fp_sin", F64, F64), z3.Function("fp_cos", F64, F64)
+        x, sn, cs = self.e, fs(self.e), fc(self.e)
+        eng = Engine.cur
+        if eng is not None:
+            one, half, hp = fpval(1.0), fpval(0.5), fpval(math.pi / 2)
+            fin = self._ordinary()
+            eng.add_axiom(z3.Implies(fin, z3.And(z3.fpLEQ(z3.fpAbs(sn), one), z3.fpLEQ(z3.fpAbs(cs), one))))
+            eng.add_axiom(z3.Implies(fin, z3.Or(z3.fpGEQ(z3.fpAbs(sn), half), z3.fpGEQ(z3.fpAbs(cs), half))))
+            eng.add_axiom(z3.Implies(z3.fpLEQ(z3.fpAbs(x), hp), z3.fpGEQ(cs, fpval(2.0**-54))))
+            t = _sin_one_threshold()
+            near = fpval(float(np.nextafter(t, 4.0)))
+            eng.add_axiom(z3.Implies(fin, z3.fpLEQ(z3.fpAbs(sn), z3.fpAbs(x))))
+            eng.add_axiom(z3.Implies(z3.fpLEQ(z3.fpAbs(x), fpval(t)), z3.fpLT(z3.fpAbs(sn), one)))
+            eng.add_axiom(z3.Implies(z3.And(z3.fpGEQ(x, near), z3.fpLEQ(x, hp)), z3.fpEQ(sn, one)))
+            eng.add_axiom(z3.Implies(z3.And(z3.fpLEQ(x, z3.fpNeg(near)), z3.fpGEQ(x, z3.fpNeg(hp))), z3.fpEQ(sn, z3.fpNeg(one))))
+            eng.add_axiom(z3.Implies(z3.fpIsZero(x), z3.And(z3.fpIsZero(sn), z3.fpEQ(cs, one))))
+        return SF(sn), SF(cs)
 
     def sin(self):
-        raise Unsupported("sin in the float64 model")
+        return self._sincos()[0]
 
-    cos = arccos = log10 = log = exp = deg2rad = rad2deg = sin
+    def cos(self):
+        return self._sincos()[1]
+
+    def log10(self):
+        raise Unsupported("log/exp in the float64 model")
+
+    log = exp = deg2rad = rad2deg = log10
+
+
+_SIN_T = []
+
+
+def _sin_one_threshold():
+    """largest float64 T < pi/2 with sin(T) < 1 on this platform's libm (bisection; sin is 1.0 from there up to fl(pi/2))"""
+    if not _SIN_T:
+        lo, hi = math.pi / 2 - 1.0e-7, math.pi / 2
+        assert math.sin(lo) < 1.0 and math.sin(hi) == 1.0
+        while np.nextafter(lo, 4.0) < hi:
+            mid = lo + (hi - lo) / 2
+            if math.sin(mid) < 1.0:
+                lo = mid
+            else:
+                hi = mid
+        _SIN_T.append(float(lo))
+    return _SIN_T[0]
 
 
 def fp_to_float(v):
